@@ -263,6 +263,13 @@ def gen_specs(rng, known, unknown):
     return specs
 
 
+_CHK = b"URI:CHK:aeaqcaibaeaqcaibaeaqcaibae:aibaeaqcaibaeaqcaibaeaqcaibaeaqcaibaeaqcaibaeaqcaiba"
+_SSK = b"URI:SSK:nnvww23lnnvww23lnnvww23lnm:mztgmztgmztgmztgmztgmztgmztgmztgmztgmztgmztgmztgmzta"
+_MDMF = b"URI:MDMF:nnvww23lnnvww23lnnvww23lnm:mztgmztgmztgmztgmztgmztgmztgmztgmztgmztgmztgmztgmzta"
+_DIR2 = b"URI:DIR2:" + _SSK[len(b"URI:SSK:"):]
+_SSK_RO_BITS = b"nnvww23lnnvww23lnnvww23lnm:mztgmztgmztgmztgmztgmztgmztgmztgmztgmztgmztgmztgmzta"
+_SSK_VER_BITS = b"nnvww23lnnvww23lnnvww23lnm:mztgmztgmztgmztgmztgmztgmztgmztgmztgmztgmztgmztgmzta"
+
 CORPUS = [
     # the three defects of the shipped code (DESIGN §3 C43), as minimal pairs
     ({"how": "node", "s": b"URI:CHK:aeaqcaibaeaqcaibaeaqcaibae:aibaeaqcaibaeaqcaibaeaqcaibaeaqcaibaeaqcaibaeaqcaiba:3:10:1000".hex()},
@@ -273,7 +280,35 @@ CORPUS = [
      {"how": "nodemaker", "s": b"URI:DIR2-CHK:aeaqcaibaeaqcaibaeaqcaibae:aibaeaqcaibaeaqcaibaeaqcaibaeaqcaibaeaqcaibaeaqcaiba:3:10:1000".hex(), "s2": None, "imm": False}),
     ({"how": "from_string", "s": b"URI:FUTURE:abc".hex(), "imm": False},
      {"how": "from_string", "s": b"URI:FUTURE:abc".hex(), "imm": False}),
+    # near misses: same key and UEB hash, another k / N / size (nodes and bare caps)   [seeded change C43-a]
+    ({"how": "node", "s": (_CHK + b":3:10:1000").hex()}, {"how": "node", "s": (_CHK + b":4:10:1000").hex()}),
+    ({"how": "node", "s": (_CHK + b":3:10:1000").hex()}, {"how": "node", "s": (_CHK + b":3:11:1000").hex()}),
+    ({"how": "nodemaker", "s": (_CHK + b":3:10:1000").hex(), "s2": None, "imm": False},
+     {"how": "nodemaker", "s": (_CHK + b":3:10:1001").hex(), "s2": None, "imm": False}),
+    ({"how": "from_string", "s": (_CHK + b":3:10:1000").hex(), "imm": False},
+     {"how": "from_string", "s": (_CHK + b":3:10:1001").hex(), "imm": False}),
+    # a mutable file node / directory node against objects of other classes: `!=` must hold   [seeded change C43-c]
+    ({"how": "node", "s": _SSK.hex()}, {"how": "node", "s": (_CHK + b":3:10:1000").hex()}),
+    ({"how": "node", "s": _SSK.hex()}, {"how": "node", "s": b"URI:LIT:krugkidfnzsc4".hex()}),
+    ({"how": "node", "s": _SSK.hex()}, {"how": "other", "k": 0}),
+    ({"how": "node", "s": _SSK.hex()}, {"how": "other", "k": 1}),
+    ({"how": "node", "s": _DIR2.hex()}, {"how": "node", "s": _SSK.hex()}),
+    ({"how": "node", "s": _DIR2.hex()}, {"how": "other", "k": 4}),
+    ({"how": "node", "s": _DIR2.hex()}, {"how": "from_string", "s": _DIR2.hex(), "imm": False}),
+    ({"how": "node", "s": _MDMF.hex()}, {"how": "unknown_node", "s": None, "s2": b"ro.URI:FUTURE-RO:x".hex(), "imm": False}),
 ]
+
+# usage-state corpus: one operand has rendered its string / been hashed, the other has not   [seeded change C43-b]
+USAGE_CORPUS = []
+for _s in (_DIR2, b"URI:DIR2-RO:" + _SSK_RO_BITS, b"URI:DIR2-CHK:" + _CHK[len(b"URI:CHK:"):] + b":3:10:1000",
+           b"URI:DIR2-LIT:krugkidfnzsc4", b"URI:DIR2-MDMF:" + _MDMF[len(b"URI:MDMF:"):],
+           b"URI:DIR2-Verifier:" + _SSK_VER_BITS, _SSK, _CHK + b":3:10:1000"):
+    for _how in ("from_string", "node", "nodemaker"):
+        for _first, _acc in (("left", ["to_string"]), ("right", ["hash"]), ("left", ["get_uri"]), ("right", ["get_readonly_uri", "repr"])):
+            _sp = {"how": _how, "s": _s.hex(), "imm": False}
+            if _how == "nodemaker":
+                _sp["s2"] = None
+            USAGE_CORPUS.append((_sp, dict(_sp), {"first": _first, "accessors": _acc}))
 
 
 def parse_functional_ok(a, b, da, db):
@@ -529,7 +564,17 @@ def run(ctx):
             env = Env()
             objs = build_pool(ctx, env, [sa, sb])
             run_pairs(ctx, env, objs, [(0, 1), (1, 0), (0, 0)], cases, impl, lines)
-        rounds = ctx.budget(40, 1500)
+        for sa, sb, usage in USAGE_CORPUS:
+            env = Env()
+            objs = build_pool(ctx, env, [sa, sb])
+            if len(objs) == 2:
+                (_, ta, da), (_, tb, db) = objs
+                applies = da[2] == db[2] and da[2] in ("cap", "node")
+                same = (caps_of(ta, da[2]) == caps_of(tb, db[2])) if applies else None
+                eval_usage(ctx, sa, sb, da, db, same, usage, cases, impl, lines)
+                ctx.count("usage-corpus")
+        import os
+        rounds = 0 if os.environ.get("VERIF_CORPUS_ONLY") else ctx.budget(40, 1500)
         for _ in range(rounds):
             env = Env()
             known, unknown = gen_strings(ctx.rng)
